@@ -16,4 +16,5 @@ INVARIANT TrimSplits
 INVARIANT RegionInside
 INVARIANT RefVolume
 INVARIANT EmitAll
+INVARIANT Decomposition
 CHECK_DEADLOCK FALSE
